@@ -58,6 +58,17 @@ struct ConnState {
     delay_ms: u64,
     hs_stage: u64,
     unacked: bool, // a reply frame was handed to the client and not acknowledged yet
+    // frame boundaries inside rbuf: (bytes still unread, exchange, position, a planned well-formed frame?)
+    marks: VecDeque<(usize, u64, u64, bool)>,
+}
+
+/// Queue bytes for the client and remember where the frame ends, so that the moment the client has consumed it can be logged.
+fn push_frame(c: &mut ConnState, bytes: &[u8], ex: u64, pos: u64, planned: bool) {
+    if bytes.is_empty() {
+        return;
+    }
+    c.rbuf.extend(bytes.iter().copied());
+    c.marks.push_back((bytes.len(), ex, pos, planned));
 }
 
 pub struct Term {
@@ -332,7 +343,7 @@ fn send_next(term: &mut Term, c: &mut ConnState, cst: &Arc<Mutex<ConnState>>) {
                     wake(c);
                 }
                 "garbage" => {
-                    c.rbuf.extend([0x04u8, 0x0d, 0x02, 0xde, 0xad]);
+                    push_frame(c, &[0x04u8, 0x0d, 0x02, 0xde, 0xad], c.ex, pos, false);
                     wake(c);
                 }
                 "malformed" => {
@@ -343,22 +354,22 @@ fn send_next(term: &mut Term, c: &mut ConnState, cst: &Arc<Mutex<ConnState>>) {
                         (0x04, 0x0f) => vec![0x04, 0x0f, 0x02, 0x04, 0x00], // BMP 04 needs six bytes
                         (a, b) => vec![a, b, 0x00],                         // a mandatory positional field is missing
                     };
-                    c.rbuf.extend(b);
+                    push_frame(c, &b, c.ex, pos, false);
                     wake(c);
                 }
                 "partial" => {
                     let k = (frame.len() / 2).max(1);
-                    c.rbuf.extend(&frame[..k]);
+                    push_frame(c, &frame[..k], c.ex, pos, false);
                     wake(c);
                 }
                 "partial_close" => {
                     let k = (frame.len() / 2).max(1);
-                    c.rbuf.extend(&frame[..k]);
+                    push_frame(c, &frame[..k], c.ex, pos, false);
                     c.closed = true;
                     wake(c);
                 }
                 "nack" => {
-                    c.rbuf.extend([0x84u8, 0x9c, 0x00]);
+                    push_frame(c, &[0x84u8, 0x9c, 0x00], c.ex, pos, false);
                     wake(c);
                 }
                 _ => {
@@ -384,14 +395,15 @@ fn send_next(term: &mut Term, c: &mut ConnState, cst: &Arc<Mutex<ConnState>>) {
             tokio::time::sleep(std::time::Duration::from_millis(delay)).await;
             let mut c = cst2.lock().unwrap_or_else(|e| e.into_inner());
             if !c.dropped {
-                c.rbuf.extend(frame);
+                push_frame(&mut c, &frame, ex, pos, true);
                 wake(&mut c);
             }
             let _ = start;
         });
     } else {
         term.log(json!({"e": "tx", "conn": c.id, "ex": c.ex, "pos": pos, "kind": kind, "code": code, "raw": frame}));
-        c.rbuf.extend(frame);
+        let ex = c.ex;
+        push_frame(c, &frame, ex, pos, true);
         wake(c);
     }
 }
@@ -488,6 +500,7 @@ impl AsyncWrite for Conn {
 
 impl AsyncRead for Conn {
     fn poll_read(self: Pin<&mut Self>, cx: &mut Context<'_>, buf: &mut ReadBuf<'_>) -> Poll<std::io::Result<()>> {
+        let mut term = self.term.lock().unwrap_or_else(|e| e.into_inner());
         let mut c = self.st.lock().unwrap_or_else(|e| e.into_inner());
         if c.rbuf.is_empty() {
             if c.closed {
@@ -500,6 +513,19 @@ impl AsyncRead for Conn {
         for _ in 0..n {
             let b = c.rbuf.pop_front().unwrap();
             buf.put_slice(&[b]);
+        }
+        // the client has consumed the last byte of a frame: that is the moment the frame is delivered
+        let mut left = n;
+        while left > 0 {
+            let Some(m) = c.marks.front_mut() else { break };
+            let k = left.min(m.0);
+            m.0 -= k;
+            left -= k;
+            if m.0 == 0 {
+                let (_, ex, pos, planned) = c.marks.pop_front().unwrap();
+                let id = c.id;
+                term.log(json!({"e": "got", "conn": id, "ex": ex, "pos": pos, "planned": planned}));
+            }
         }
         Poll::Ready(Ok(()))
     }
